@@ -244,7 +244,17 @@ class PandasModelBase(
             # pandas' nullable boolean columns have the three valued & and | built in
             if numpy.ndim(a) < 1:
                 return self.pd.NA if self.pd.isnull(a) else bool(a)
-            return self.pd.Series(a).astype("boolean")
+            a = self.pd.Series(a)
+            if self.pd.api.types.is_numeric_dtype(a.dtype) and (
+                not self.pd.api.types.is_bool_dtype(a.dtype)
+            ):
+                # numbers: zero is False, everything else True (the cast below takes 0 and 1 only)
+                missing = numpy.asarray(a.isna(), dtype=bool)
+                a = (a != 0).astype("boolean")
+                if missing.any():
+                    a = a.mask(missing)
+                return a
+            return a.astype("boolean")
 
         res = as_nullable(args[0])
         for a in args[1:]:
